@@ -78,7 +78,7 @@ reg("C18", "apirules", fn="check_escape")
 
 # C15 results independent of features
 reg("C15", "twin", fn="check_twin", configs=("default", "pu"))
-reg("C15", "twin", fn="check_xconfig", configs=("default", "pu", "ip", "ip+pu", "alloc"), per_config=False)
+reg("C15", "twin", fn="check_xconfig", configs=("default", "pu", "ip", "ip+pu", "alloc", "utf16"), per_config=False)
 reg("C15", "twin", fn="check_possib")
 reg("C15", "twin", fn="check_hashiter", configs=("default", "alloc"))
 reg("C15", "twin", fn="check_cfginv", configs=("default", "utf16"))
@@ -112,3 +112,20 @@ reg("C10", "tables", fn="check_stride")
 reg("C03", "extra", fn="check_keeplive")
 reg("C01", "extra", fn="check_keeplive")
 reg("C09", "plumb", configs=("utf16",))
+
+# rules added from the third batch of seeded changes (round 2, properties C10..C20)
+reg("C10", "backref")
+reg("C15", "backref", configs=("default", "ip"))
+reg("C10", "extra", fn="check_casesrc")
+reg("C18", "extra", fn="check_casesrc")
+reg("C18", "extra", fn="check_charsetpad")
+reg("C18", "extra", fn="check_lenarms", configs=("default", "utf16"))
+reg("C04", "commute")
+reg("C15", "commute")
+reg("C11", "propneg")
+reg("C12", "propneg")
+reg("C13", "plumb")
+reg("C13", "truncast")
+reg("C14", "truncast", configs=("utf16",))
+reg("C06", "truncast")
+reg("C17", "apirules", fn="check_scanner")
